@@ -27,7 +27,8 @@ LEVEL_TEXT = ('Decides necessary structural conditions of checker soundness: the
               'abstract evaluation: are_equals is sensitive to every component of small specifications (C05.i: 170+ single- '
               'component changes incl. reversed dependences among several same-opcode accesses), and the block comparison '
               'looks at every part of a block incl. the split instructions (C05.j). It does not decide that equal '
-              'specifications imply indistinguishable blocks (that is C02/C03).')
+              'specifications imply indistinguishable blocks (that is C02/C03).'
+              ' Added in seeding round 9: the adapter of the external checker refuses pairs that differ outside the segments it renders (C05.l, forves_format evaluated on parsed pairs).')
 EXPLANATION = ("are_equals is analysed on its CFG: every return whose first component may be True must be dominated by "
                "the rejecting tests of all five component comparisons. compare_variables: disasm, value, then inputs; the "
                "swapped retry is control dependent on elem_origin['commutative'].")
